@@ -84,8 +84,10 @@ Definition run_item3 (g : grid) (s : sx) : sx :=
   | _ => sx_error 3
   end.
 
-Definition ofDerived (p : list Z * list Q * list Q) (spec : list Q) : sx :=
-  L [I 1; ofZs (fst (fst p)); ofQs (snd (fst p)); ofQs (snd p); ofQs spec].
+(* [legacy]: for dilate, the origin the code produced before its repair (shift counted twice); only used by the check
+   to give a reverted fix its former violation key *)
+Definition ofDerived (p : list Z * list Q * list Q) (spec legacy : list Q) : sx :=
+  L [I 1; ofZs (fst (fst p)); ofQs (snd (fst p)); ofQs (snd p); ofQs spec; ofQs legacy].
 
 Definition nodes_of (g : grid) (nmax : Z) : sx :=
   ofList (fun r => ofQs (rankToCoordinates g r [])) (zrange (Z.min nmax (prodZ (g_nx g)))).
@@ -104,16 +106,17 @@ Definition run (c : sx) : sx :=
   | L [I 4%Z; g; I op; a; b] =>
       match asGrid g, asZs a, asZ b with
       | Some g', Some a', Some b' =>
-          if Z.eqb op 0 then ofDerived (multiple g' a' (negb (Z.eqb b' 0))) (spec_multiple_x0 g' a' (negb (Z.eqb b' 0)))
-          else if Z.eqb op 1 then ofDerived (divider g' a' (negb (Z.eqb b' 0))) (spec_divider_x0 g' a' (negb (Z.eqb b' 0)))
+          if Z.eqb op 0 then ofDerived (multiple g' a' (negb (Z.eqb b' 0))) (spec_multiple_x0 g' a' (negb (Z.eqb b' 0))) []
+          else if Z.eqb op 1 then ofDerived (divider g' a' (negb (Z.eqb b' 0))) (spec_divider_x0 g' a' (negb (Z.eqb b' 0))) []
           else match dilate g' b' a' with
                | Some p => ofDerived p (spec_dilate_x0 g' b' a')
+                                    (let ind := map (fun s => (- b' * s)%Z) a' in i2c g' ind (map inject_Z ind) true)
                | None => L [I 0]
                end
       | _, _, _ => sx_error 1
       end
   | L [I 5%Z; I nx; I ix] =>
-      L [match mirror_fuel (Z.to_nat (2 * Z.abs ix + 4)) nx ix with Some v => L [I 1; I v] | None => L [I 0] end; I (reflect nx ix)]
+      L [match mirror_index (Z.to_nat (2 * Z.abs ix + 4)) nx ix with Some v => L [I 1; I v] | None => L [I 0] end; I (reflect nx ix)]
   | L [I 6%Z; g; I op; a; b; I nmax] =>
       match asGrid g, asZs a with
       | Some g', Some a' =>
@@ -148,8 +151,9 @@ Definition run (c : sx) : sx :=
       | Some g', Some ord' =>
           match ord' with
           | [] => L [I 1; ofList ofZs (iter_run (g_nx g') (Z.to_nat k) 0%Z)]
-          | _ => L [ofB (iter_order_valid (length (g_nx g')) ord');
-                    ofList (fun it => match iter_next_order (g_nx g') ord' (Z.min it (prodZ (g_nx g') - 1)) with
+          | _ => let o := iter_init_order (length (g_nx g')) ord' in
+                 L [ofB (negb (Nat.eqb (length o) 0));
+                    ofList (fun it => match iter_next_order (g_nx g') o (Z.min it (prodZ (g_nx g') - 1)) with
                                       | Some l => L [I 1; ofZs l] | None => L [I 0] end) (zrange k)]
           end
       | _, _ => sx_error 1
